@@ -63,15 +63,16 @@ CLAIMED = {
         "Coq proof (list induction, filter algebra) + exhaustive small-scope correspondence",
         "DESIGN.md 4/C05"),
     "C06": (
-        "16 Coq theorems (coq/Properties/C06.v). Exact at eps = 0 in terms of covered unit cells: gaps(S) is canonical "
+        "20 Coq theorems (coq/Properties/C06.v). Exact at eps = 0 in terms of covered unit cells: gaps(S) is canonical "
         "and covers exactly S minus the timeline; crop(S) and gaps(S) partition S; gaps twice = support of crop; "
         "extrude in intersection mode covers exactly timeline minus R, loose keeps exactly the segments with no cell "
         "in R, strict exactly those with some cell outside R; covers(other) iff every cell of other is covered. For every "
         "precision eps >= 0 (the default microsecond included): every reported gap is longer than eps, inside the support and disjoint from "
         "every piece of the merged crop; every time point of the support is annotated, in a reported gap, or in a sliver no longer "
-        "than eps (Segment and Timeline supports); covers(other) iff no reported gap intersects a member of other.",
+        "than eps (Segment and Timeline supports); covers(other) iff no reported gap intersects a member of other; extrude in each mode = "
+        "crop on the reported gaps of `removed` within the extent with loose and strict swapped.",
         "Trusted: Coq kernel + vm_compute; model of gaps_iter/gaps/extrude/covers in coq/Model/Timeline.v; harness. "
-        "For eps > 0 extrude is tied exactly (K4, K1 regimes) and proved at eps = 0 only.",
+        "Cell-exact forms at eps = 0; interval forms up to slivers no longer than eps for every eps.",
         "Coq proof (canonical decompositions, cell-wise reasoning) + exhaustive small-scope correspondence",
         "DESIGN.md 4/C06"),
     "C10": (
